@@ -43,6 +43,9 @@ func (v *Verifier) declareVar(s *State, obj types.Object, val *Term) {
 	if v.boxed[vr] {
 		ref := v.allocRef(s)
 		v.storePtr(s, ref, vr.Type(), val)
+		if v.zeroDecl {
+			v.zeroGhost(s, ref, vr.Type())
+		}
 		s.vars[vr] = ref
 		return
 	}
@@ -218,7 +221,9 @@ func (v *Verifier) execStmt(s *State, st ast.Stmt) []*Flow {
 					for _, n := range vs.Names {
 						obj := v.info.Defs[n]
 						if obj != nil {
+							v.zeroDecl = true
 							v.declareVar(s, obj, v.zeroOf(obj.Type()))
+							v.zeroDecl = false
 						}
 					}
 				} else if len(vs.Values) == len(vs.Names) {
@@ -1465,7 +1470,7 @@ func (v *Verifier) ghostAsserts(s *State, st ast.Stmt, where string) {
 	}
 	var src string
 	for k, c := range v.fc.Clauses {
-		if c.Kind != "assert" || c.Where != where {
+		if (c.Kind != "assert" && c.Kind != "unfold" && c.Kind != "use") || c.Where != where {
 			continue
 		}
 		if src == "" {
@@ -1482,6 +1487,14 @@ func (v *Verifier) ghostAsserts(s *State, st ast.Stmt, where string) {
 			if sc := v.pkg.Types.Scope().Innermost(st.Pos()); sc != nil {
 				env.scope = sc
 			}
+		}
+		if c.Kind == "unfold" {
+			v.applyUnfold(s, env.at(s, v.entry), c)
+			continue
+		}
+		if c.Kind == "use" {
+			v.applyUse(s, env.at(s, v.entry), c, st.Pos())
+			continue
 		}
 		g := env.at(s, v.entry).trBool(c.Expr)
 		v.oblige(s, "assert", fmt.Sprintf("%d", k+1), g, st.Pos(), "ghost assertion "+where+" `"+c.Marker+"`: "+c.Expr.String())
